@@ -3,7 +3,7 @@
 # a state is a downward-closed set S of executed edges, a transition runs one enabled edge for real (gcc, ar, cp,
 # sh ...) in a build directory that holds exactly the configure-time files plus the outputs of S.  Every
 # transition must exit 0 and reproduce the reference digests of its outputs.
-import hashlib, json, os, shutil, sys, time
+import hashlib, itertools, json, os, shutil, sys, time
 from verif.core import Check, pmap, run_main, scratch_root, NCPU
 from verif import projgen as pg, refninja as rn
 
@@ -123,13 +123,13 @@ class Workdir:
 def explore_project(job):
     from verif import mesonproc as mp
     idx, spec, placement, odd, setup_args = job
-    res = {'idx': idx, 'desc': pg.describe(spec) + ' @' + placement + (' odd-names' if odd else '') + ' ' + ' '.join(setup_args),
+    hand = spec if isinstance(spec, dict) else None      # a hand-enumerated project: {'desc', 'files'}
+    res = {'idx': idx, 'desc': (hand['desc'] if hand else pg.describe(spec) + ' @' + placement + (' odd-names' if odd else '')) + ' ' + ' '.join(setup_args),
            'states': 0, 'transitions': 0, 'edges': 0, 'viol': [], 'capped': False, 'nondet_outputs': 0, 'skip': None, 'orders': 0}
     root = os.path.join(scratch_root(), 'c05.%d' % os.getpid(), 'p')
     shutil.rmtree(root, ignore_errors=True)
-    r = pg.render(spec, placement, odd_names=odd)
-    mp.write_tree(root, r.files)
-    files_repr = r.files
+    files_repr = hand['files'] if hand else pg.render(spec, placement, odd_names=odd).files
+    mp.write_tree(root, files_repr)
     s = mp.run_meson(['setup', 'b'] + list(setup_args), root)
     if s.rc != 0:
         res['skip'] = 'setup failed: ' + s.out[-300:]
@@ -279,6 +279,45 @@ def explore_project(job):
     return res
 
 
+def unitymix_projects(thorough):
+    """One executable of plain and build-time generated sources in one or two languages, built as a unity build: every unity
+    compile includes generated sources, whichever language and position they have."""
+    out = []
+    for n_cpp in (0, 2) if not thorough else (0, 1, 2):
+        for gen_c in (0, 1, 2):
+            for gen_cpp in ((0, 1, 2) if n_cpp or thorough else (0,)):
+                if gen_c + gen_cpp == 0:
+                    continue
+                for usize in ((2,) if not thorough else (1, 2, 4)):
+                    for order in ('by-language', 'generated-first', 'interleaved'):
+                        files = {'main.c': 'int a0(void);\nint main(void) { return a0() - 1; }\n', 'a0.c': 'int a0(void) { return 1; }\n'}
+                        plain = ["'main.c'", "'a0.c'"]
+                        gens = []
+                        L = ["project('um', 'c'%s, default_options: ['warning_level=0'])" % (", 'cpp'" if n_cpp or gen_cpp else ''), "cp = find_program('cp')"]
+                        for i in range(n_cpp):
+                            files['p%d.cpp' % i] = 'int p%d() { return %d; }\n' % (i, i)
+                            plain.append("'p%d.cpp'" % i)
+                        for i in range(gen_c):
+                            files['gc%d.c.in' % i] = 'int gc%d(void) { return %d; }\n' % (i, i)
+                            L.append("gc%d = custom_target('gc%d', input: 'gc%d.c.in', output: 'gc%d.c', command: [cp, '@INPUT@', '@OUTPUT@'])" % (i, i, i, i))
+                            gens.append('gc%d' % i)
+                        for i in range(gen_cpp):
+                            files['gp%d.cpp.in' % i] = 'int gp%d() { return %d; }\n' % (i, i)
+                            L.append("gp%d = custom_target('gp%d', input: 'gp%d.cpp.in', output: 'gp%d.cpp', command: [cp, '@INPUT@', '@OUTPUT@'])" % (i, i, i, i))
+                            gens.append('gp%d' % i)
+                        if order == 'by-language':
+                            srcs = plain + gens
+                        elif order == 'generated-first':
+                            srcs = gens + plain
+                        else:
+                            srcs = [x for pair in itertools.zip_longest(plain, gens) for x in pair if x]
+                        L.append("executable('app', %s)" % ', '.join(srcs))
+                        files['meson.build'] = '\n'.join(L) + '\n'
+                        desc = 'unitymix: %d plain C++, %d generated C, %d generated C++ sources, unity_size %d, sources %s' % (n_cpp, gen_c, gen_cpp, usize, order)
+                        out.append(({'desc': desc, 'files': files}, ('--unity=on', '-Dunity_size=%d' % usize)))
+    return out
+
+
 def jobs_for(ck):
     jobs = []
     idx = 0
@@ -330,6 +369,10 @@ def jobs_for(ck):
         for pl in (('root', 'allsub') if ck.thorough else (('root', 'allsub')[(gi + ck.seed) % 2],)):
             jobs.append((idx, spec, pl, False, ()))
             idx += 1
+    # unity builds of targets that mix plain and generated sources of one or two languages
+    for spec, args in unitymix_projects(ck.thorough):
+        jobs.append((idx, spec, 'root', False, args))
+        idx += 1
     # link chains deeper than the exhaustive bound: generated header two or three link levels away from its user
     for ci, spec in enumerate(pg.chain_specs()):
         for pl in (('root', 'allsub') if ck.thorough else (('root', 'allsub')[(ci + ck.seed) % 2],)):
